@@ -115,8 +115,9 @@ def splitScript (ts : List String) : List (List String) :=
 
 partial def parseWOp (ts : List String) : Option WOp :=
   -- `gget` / `ggetmut` / `gins` / `grem`: the same operations through the generic storage traits — same model ops
+  -- (`uins`: the insertion executed from a scope guard while a destructor panic unwinds — an insertion all the same)
   let ts := match ts with
-    | h :: rest => if ["gget", "ggetmut", "gins", "grem", "lget", "lgetmut", "pejoin"].contains h then (h.drop 1).toString :: rest
+    | h :: rest => if ["gget", "ggetmut", "gins", "grem", "lget", "lgetmut", "pejoin", "uins"].contains h then (h.drop 1).toString :: rest
                    else if h == "lazy_create_nobuild" then "lazy_create" :: rest
                    else if h == "ldrain2" then "rem" :: rest
                    else if h == "lentry2" then "entry_or" :: rest ++ ["0"] else ts
